@@ -425,6 +425,109 @@ func (c *cli) ruleExit(r *Report) {
 			}
 		}
 	}
+	// E2': in a routine that branches on the diff routine's boolean, status 0 is
+	// reached only over the edge on which that boolean is false (a process that
+	// has found a difference must not end with 0 on some other path, e.g. the -o path)
+	for _, fn := range c.fns {
+		var falseEdges []Edge
+		for _, bb := range fn.Blocks {
+			cond, tE, fE, okb := branchEdges(bb)
+			if !okb {
+				continue
+			}
+			neg := false
+			for {
+				u, isU := cond.(*ssa.UnOp)
+				if !isU || u.Op != token.NOT {
+					break
+				}
+				cond, neg = u.X, !neg
+			}
+			ex, isEx := cond.(*ssa.Extract)
+			if !isEx || ex.Index != 1 {
+				continue
+			}
+			call, isCall := ex.Tuple.(*ssa.Call)
+			if !isCall {
+				continue
+			}
+			if sf := staticCallee(call); sf == nil || fnPkg(sf) != c.pkg.Pkg || !isDiffRoutine(sf) {
+				continue
+			}
+			if neg {
+				falseEdges = append(falseEdges, tE)
+			} else {
+				falseEdges = append(falseEdges, fE)
+			}
+		}
+		if len(falseEdges) == 0 {
+			continue
+		}
+		cut := EdgeSet{}
+		for _, e := range falseEdges {
+			cut[e] = true
+		}
+		// nothing runs after an exit
+		for _, b := range fn.Blocks {
+			for _, in := range b.Instrs {
+				if ci, ok := in.(ssa.CallInstruction); ok {
+					_, isExit := isExitCall(ci)
+					if sf := staticCallee(ci); isExit || (sf != nil && helpers[sf]) {
+						for j := range b.Succs {
+							cut[Edge{b, j}] = true
+						}
+					}
+				}
+			}
+		}
+		k := 0
+		for _, b := range fn.Blocks {
+			for _, in := range b.Instrs {
+				ci, ok := in.(ssa.CallInstruction)
+				if !ok {
+					continue
+				}
+				code, isExit := isExitCall(ci)
+				if !isExit {
+					continue
+				}
+				zero := code == 0
+				var zeroPreds []*ssa.BasicBlock
+				if phi, isPhi := ci.Common().Args[0].(*ssa.Phi); isPhi {
+					for i, e := range phi.Edges {
+						if kk, isK := constInt(e); isK && kk == 0 {
+							zeroPreds = append(zeroPreds, phi.Block().Preds[i])
+						}
+					}
+				} else if !zero {
+					continue
+				}
+				k++
+				okZero := true
+				if len(zeroPreds) > 0 {
+					for _, pb := range zeroPreds {
+						if !cutsOff(fn, cut, pb) {
+							// the edge itself may be the false edge
+							direct := false
+							for _, e := range falseEdges {
+								if e.From == pb {
+									direct = true
+								}
+							}
+							if !direct {
+								okZero = false
+							}
+						}
+					}
+				} else {
+					okZero = cutsOff(fn, cut, b)
+				}
+				r.Check(okZero, rule, c.key(fn, fmt.Sprintf("exit-0-only-without-difference#%d", k)), c.w.Pos(ci.Pos()),
+					"status 0 is reached only over the edge on which the diff routine reported no difference",
+					"status 0 can be reached although the diff routine reported a difference (a path that bypasses the test of its boolean, e.g. the -o branch): differing inputs exit 0")
+			}
+		}
+	}
 	// E4 helpers
 	for _, name := range []string{"errorAndExit", "errorfAndExit", "printUsageAndExit"} {
 		fn := c.pkg.Func(name)
